@@ -435,12 +435,13 @@ func genC07Case(rt *rapid.T, avoid func(string) bool) (c07Case, map[string]bool)
 // ---- child-process tier: the example server as a separate process on loopback TCP
 
 type childSrv struct {
-	cmd    *exec.Cmd
-	stdin  io.WriteCloser
-	port   int
-	stderr *tailBuf
-	exited chan struct{}
-	werr   error
+	cmd     *exec.Cmd
+	stdin   io.WriteCloser
+	port    int
+	tlsPort int
+	stderr  *tailBuf
+	exited  chan struct{}
+	werr    error
 }
 
 var portCounter int64
@@ -488,10 +489,20 @@ func startOnFreePorts(srv *redis.Server, withTLS bool) (port, tlsPort int, err e
 }
 
 func startChildServer(asLimit uint64) (*childSrv, error) {
+	return startChildServerWith(asLimit, "", "")
+}
+
+// startChildServerWith: pkiDir != "" adds a TLS listener using server.crt/server.key/ca.crt of that directory
+// (and a common-name rule when rule != "").
+func startChildServerWith(asLimit uint64, pkiDir, rule string) (*childSrv, error) {
 	for attempt := 0; attempt < 5; attempt++ {
 		cs := &childSrv{port: freePort(), stderr: &tailBuf{}, exited: make(chan struct{})}
 		cs.cmd = exec.Command(selfBinary())
 		cs.cmd.Env = append(os.Environ(), "VERIF_CHILD=server", fmt.Sprintf("VERIF_CHILD_PORT=%d", cs.port), fmt.Sprintf("VERIF_CHILD_AS=%d", asLimit), "GOTRACEBACK=single")
+		if pkiDir != "" {
+			cs.tlsPort = freePort()
+			cs.cmd.Env = append(cs.cmd.Env, "VERIF_CHILD_PKI="+pkiDir, fmt.Sprintf("VERIF_CHILD_TLSPORT=%d", cs.tlsPort), "VERIF_CHILD_RULE="+rule)
+		}
 		in, err := cs.cmd.StdinPipe()
 		if err != nil {
 			return nil, err
